@@ -36,6 +36,7 @@ type Scenario struct {
 	Name         string `json:"name"`
 	Callers      int    `json:"callers"`
 	Replies      []int  `json:"replies"`       // per caller: how many copies of its reply the coordinator sends (0 = never answers)
+	CronOnLost   bool   `json:"cron_on_lost,omitempty"` // after the connection loss a heartbeat is attempted on the lost session under the message id of a request pending on the healthy one
 	Collide      bool   `json:"collide"`       // a phase-two reply is sent with the message id of caller 0's request
 	CollideFails bool   `json:"collide_fails"` // ... and its write to the session fails
 	Close        bool   `json:"close"`         // the connection may drop at any moment (a second one stays)
@@ -57,6 +58,7 @@ func scenarios(thorough bool) []Scenario {
 		{Name: "3callers-reorder", Callers: 3, Replies: []int{1, 1, 1}, Bound: 0},
 		{Name: "2callers-collide-writefail", Callers: 2, Replies: []int{1, 1}, Collide: true, CollideFails: true, Bound: 1},
 		{Name: "2callers-writefail", Callers: 2, Replies: []int{1, 0}, FailWrite: 2, Bound: 2},
+		{Name: "2callers-close-heartbeat", Callers: 2, Replies: []int{1, 1}, Close: true, CronOnLost: true, Bound: 1},
 	}
 	if thorough {
 		s = append(s,
@@ -175,6 +177,7 @@ type harness struct {
 	fired       map[int]bool // thread ids whose timer was fired
 	closedOnce  bool
 	collideDone bool
+	cronDone    bool
 	baseID      int32
 	deliveries  int
 	fresh       outcome
@@ -260,6 +263,22 @@ func (h *harness) env() []vsched.EnvAction {
 				sgetty.GetGettyRemotingClient().SendAsyncResponse(id, message.BranchCommitResponse{})
 			})
 		}})
+	}
+	if h.sc.CronOnLost && h.closedOnce && !h.cronDone {
+		var id int32 = -1
+		for _, w := range h.wire {
+			if w.sess == h.s2 && w.replied == 0 {
+				id = w.id
+			}
+		}
+		if id >= 0 {
+			out = append(out, vsched.EnvAction{Desc: "heartbeat-on-lost-connection-with-colliding-id", Fire: func() {
+				h.mu.Lock()
+				h.cronDone = true
+				h.mu.Unlock()
+				h.sched.GoNow("heartbeat", func() { sgetty.VerifSendHeartbeat(h.s1, id) })
+			}})
+		}
 	}
 	if h.sc.Close && !h.closedOnce {
 		out = append(out, vsched.EnvAction{Desc: "connection-lost", Fire: func() {
@@ -678,6 +697,44 @@ func kindSweep(r *rep.Run) {
 	}
 }
 
+// onewaySweep: requests the client sends without waiting (SendAsyncRequest: the TM / RM announcements) register a pending
+// future too. Answered or not, nothing may stay behind once the reply has been processed or the request timeout has passed.
+func onewaySweep(r *rep.Run) {
+	for _, answered := range []bool{true, false} {
+		sgetty.VerifResetRemoting()
+		vtime.SetVirtual(func(d time.Duration) bool { return false })
+		ks := &kindSession{}
+		sgetty.VerifRegisterSession(ks)
+		err := sgetty.GetGettyRemotingClient().SendAsyncRequest(message.RegisterTMRequest{AbstractIdentifyRequest: message.AbstractIdentifyRequest{ApplicationId: "app", TransactionServiceGroup: "g"}})
+		quiet.Spin(func() bool { ks.mu.Lock(); defer ks.mu.Unlock(); return len(ks.last) > 0 }, 3)
+		ks.mu.Lock()
+		var id int32 = -1
+		if len(ks.last) > 0 {
+			id = ks.last[0].ID
+		}
+		ks.mu.Unlock()
+		r.Eval(true)
+		r.Count("oneway_sweep_cases", 1)
+		loc := map[string]interface{}{"kind": "register-tm (one-way)", "answered": answered}
+		if err != nil || id < 0 {
+			r.Violate("oneway/request-not-written", clauseText, loc, fmt.Sprintf("err=%v", err))
+			vtime.SetPassThrough()
+			continue
+		}
+		if answered {
+			sgetty.GetGettyClientHandlerInstance().OnMessage(ks, message.RpcMessage{ID: id, Type: message.GettyRequestTypeResponse, Codec: byte(codec.CodecTypeSeata),
+				Body: message.RegisterTMResponse{AbstractIdentifyResponse: message.AbstractIdentifyResponse{AbstractResultMessage: message.AbstractResultMessage{ResultCode: message.ResultCodeSuccess}, Identified: true}}})
+		}
+		quiet.Spin(nil, 3)
+		vtime.FirePending(0) // the request timeout passes
+		quiet.Spin(nil, 3)
+		if n := sgetty.VerifPendingFutures(); n != 0 {
+			r.Violate(fmt.Sprintf("oneway/bookkeeping-left/answered=%v", answered), clauseText, loc, fmt.Sprintf("%d pending future(s) remain after the reply was processed / the request timeout passed", n))
+		}
+		vtime.SetPassThrough()
+	}
+}
+
 func Run(r *rep.Run) {
 	thorough := r.Tier == "thorough"
 	r.Rule = "every schedule with at most `bound` deviations (preemptions at the rewriter-inserted scheduling points before/after each channel and sync.Map operation of getty_remoting.go, getty_client.go, client_on_response_processor.go and inside the session's WritePkg; environment events landing before a runnable thread) of N concurrent SendSyncRequest callers on the real remoting client against a fake session; environment events: each reply (1-3 copies per request, or none), each caller's 20 s timer, a phase-two reply under a colliding message id, loss of one of two connections, a request whose write fails; all orders of environment events at quiescence are explored without bound. Non-trivial = the execution had at least one point with more than one enabled action."
@@ -708,6 +765,7 @@ func Run(r *rep.Run) {
 	shard, nshards, worker := rep.Shard()
 	if !worker {
 		kindSweep(r)
+		onewaySweep(r)
 		rep.RunSharded(r, 16, 60*time.Minute)
 		// distinct observed outcomes per scenario (union over the workers)
 		union := map[string]map[string]bool{}
